@@ -102,25 +102,47 @@ def run_replay(vh, sc, dbs, cases, tag):
             for c in ch:
                 fh.write(json.dumps(c, separators=(",", ":")) + "\n")
         env = dict(os.environ, GOMAXPROCS="1")
-        p = subprocess.Popen([vh, "query-replay", "-dir", os.path.join(d, "dbs")], stdin=open(inp), stdout=subprocess.PIPE,
-                             stderr=subprocess.PIPE, text=True, env=env)
+        # output to files: a pipe would stall the processes that are not being read
+        p = subprocess.Popen([vh, "query-replay", "-dir", os.path.join(d, "dbs")], stdin=open(inp), stdout=open(os.path.join(d, "stdout"), "w+"),
+                             stderr=open(os.path.join(d, "stderr"), "w+"), text=True, env=env)
+        p.errfile, p.outfile = os.path.join(d, "stderr"), os.path.join(d, "stdout")
         procs.append(p)
     fails, summ = [], []
-    for p in procs:
+    crashed = 0
+    for pi, p in enumerate(procs):
         try:
-            out, err = p.communicate(timeout=2400)
+            p.wait(timeout=2400)
         except subprocess.TimeoutExpired:
             p.kill()
             raise vlib.MachineryError("query-replay timed out")
+        out = open(p.outfile).read()
+        err = ""
         if p.returncode != 0:
-            raise vlib.MachineryError("query-replay failed rc=%s: %s" % (p.returncode, err[-2000:]))
+            err = open(p.errfile, errors="replace").read()[-400000:]
+        done = 0
         for line in out.splitlines():
             o = json.loads(line)
             if o.get("summary"):
                 summ.append(o)
+                done = o["cases"]
             elif o.get("ok") is False:
                 fails.append(o)
-    vlib.require(sum(s["cases"] for s in summ) == len(cases), "replay did not process all cases")
+        if p.returncode != 0:
+            # a panic in a goroutine of the engine takes the whole harness process down: the case that was
+            # running is the failing one, the rest of this chunk stays unprocessed
+            marks = [ln for ln in err.splitlines() if ln.startswith("QCASE ")]
+            tail = err[err.rfind("QCASE "):] if marks else err
+            if marks and ("panic:" in tail or "fatal error:" in tail):
+                c = chunks[pi][int(marks[-1].split()[1])]
+                msg = tail[tail.find("\n") + 1:][:3000]
+                fails.append({"ok": False, "id": -1, "kind": "crash", "msg": msg, "got": {"rows": [], "totals": [0, 0, 0, 0], "hits": 0, "ifaces": []},
+                              "eq_prows": False, "case": c})
+                crashed += 1
+                summ.append({"cases": int(marks[-1].split()[1]) + 1, "rows": 0, "crashed": True})
+                continue
+            raise vlib.MachineryError("query-replay failed rc=%s: %s" % (p.returncode, err[-2000:]))
+    if not crashed:
+        vlib.require(sum(s["cases"] for s in summ) == len(cases), "replay did not process all cases")
     return fails, summ
 
 
